@@ -226,14 +226,14 @@ def pick_op(rng, spec, ids, selections):
     return op
 
 
-def reconfigure(rng, sp, d, ids, mc_max):
+def reconfigure(rng, sp, d, ids, mc_max, keep_mc=0.4):
     """Re-configure a built DAG (max_concurrency by config or attribute assignment; PARTIAL per-node configs that name only
     priority or only is_sequential). Returns the spec the monitors must use afterwards."""
     import copy
 
     sp = copy.deepcopy(sp)
     conf = {}
-    if rng.random() < 0.6:
+    if rng.random() >= keep_mc:
         new_mc = rng.randint(1, mc_max)
         sp["mc"] = new_mc
         if rng.random() < 0.4:
@@ -400,10 +400,17 @@ def job_sched(j):
         for _rep in range(j.get("reps", 2)):
             if reconf_at == _rep:
                 sp = reconfigure(rng, sp, d, ids, j.get("gen", {}).get("mc_max", 4))
+                if rng.random() < 0.4:
+                    # ... and a SECOND reload right after it: what the first one set and the second one does not mention stays set
+                    sp = reconfigure(rng, sp, d, ids, j.get("gen", {}).get("mc_max", 4), keep_mc=0.6)
+                    col.counters["dags_reconfigured_twice"] += 1
                 col.counters["reconfigured_dags_%s" % ("before_first_call" if _rep == 0 else "between_calls")] += 1
             op = pick_op(rng, sp, ids, j.get("selections", False))
             if sset and _rep == 0 and rng.random() < 0.5:
                 op = {"kind": "setup"}  # an explicit setup() before the first call
+            if sp.get("run_debug"):
+                op = {"kind": "call"}
+                col.counters["cases_with_debug_nodes_switched_on"] += 1
             faults = []
             if j.get("faults") and op.get("kind") != "setup" and not sset and rng.random() < j.get("fault_rate", 1.0):
                 k = 1 if rng.random() < 0.7 else 2
